@@ -90,6 +90,25 @@ CLAIMS = {
              "from C06/C07, not re-decided.",
         note="Trusted: reference code table in spverif/pdus.py; decoder semantics as modelled.",
         technique="ast-based abstract interpretation (gated terms) + table extraction/comparison + finite case analysis over PDU kinds"),
+    "C19": dict(
+        text="Static analysis: the successor function of both providers is extracted as a closed term of count and width by abstract "
+             "interpretation and decided against (c+1) mod 2^w by finite case analysis over the extracted term (every count for "
+             "widths <= 8, boundary counts up to 14/16 bits); returned value == old count; initial state 0; check_count's accepted "
+             "interval is decided from its guard facts in both directions; the file write-back order (read, seek(0), write successor, "
+             "return, inside the with-block) by a syntactic must-order rule; missing-file refusals from the raise log. The inductive "
+             "step (stored value always lies in the accepted interval) gives the all-histories part; crash points inside a call "
+             "and OS durability are not decided.",
+        note="Trusted: Python file/with semantics; int()/isdigit()/rstrip(). The must-order rule recognises the straight-line idiom "
+             "used today; a restructured body yields an analysis error, not a verdict.",
+        technique="ast-based abstract interpretation + finite case analysis on the extracted successor term + syntactic must-order check"),
+    "C20": dict(
+        text="Static analysis: both struct-specifier tables are constant-evaluated and compared with the reference; for every width the "
+             "constructor, the fixed-width subclasses, both generator entry points and the value setter (integer and octet form) are "
+             "abstractly interpreted and the octet view compared per bit with the big-endian image of the value in exactly that "
+             "width; integer/length views, range/width/too-short guards (both directions, ValueError), cut-to-width of octet input, "
+             "and __eq__/__hash__ keyed on exactly (value, width) for all 16 width pairs.",
+        note="Trusted: struct format semantics. hex_str/__str__ formatting is not checked.",
+        technique=TECH + "; table extraction by constant evaluation"),
 }
 
 NOT_CLAIMED = {}
